@@ -66,7 +66,35 @@ func Mutate(r *lib.Rand, doc map[string]any, n int) []string {
 			break
 		}
 		l := locs[r.Intn(len(locs))]
-		switch r.Intn(13) {
+		switch r.Intn(14) {
+		case 13:
+			// a validation keyword with a value outside what the Swagger schema allows for it
+			var typed []map[string]any
+			for _, c := range locs {
+				if m, ok := c.get().(map[string]any); ok {
+					if _, hasType := m["type"]; hasType {
+						typed = append(typed, m)
+					}
+				}
+			}
+			if len(typed) > 0 {
+				m := typed[r.Intn(len(typed))]
+				switch r.Intn(6) {
+				case 0:
+					m["multipleOf"] = []any{json.Number("-2"), json.Number("0"), json.Number("-0.5"), "2"}[r.Intn(4)]
+				case 1:
+					m[r.Pick("maxLength", "minLength", "maxItems", "minItems")] = []any{json.Number("-1"), json.Number("1.5"), "3", nil}[r.Intn(4)]
+				case 2:
+					m[r.Pick("maximum", "minimum")] = []any{"10", true, []any{}}[r.Intn(3)]
+				case 3:
+					m[r.Pick("exclusiveMaximum", "exclusiveMinimum", "uniqueItems")] = []any{"true", json.Number("1"), nil}[r.Intn(3)]
+				case 4:
+					m["enum"] = []any{[]any{}, "a", []any{json.Number("1"), json.Number("1")}}[r.Intn(3)]
+				default:
+					m["required"] = []any{true, []any{}, []any{"a", "a"}, "a"}[r.Intn(4)]
+				}
+				edits = append(edits, "bad-keyword-value")
+			}
 		case 12:
 			// a vendor extension (or another stray member) dropped into an object, preferably a reference object
 			var objs, refs []map[string]any
